@@ -9,7 +9,7 @@ ASPECTS = ['object-name', 'set-identifier', 'header-id', 'signed-int', 'channel-
            'non-uniform-index', 'attr-units', 'channel-units', 'index-type', 'equipment-type', 'equipment-location',
            'ident-attribute']
 PATTERNS = ['plain', 'nested', 'exception-at-build', 'exception-at-write', 'decorator', 'generator-abandoned',
-            'interleaved-outside-file']
+            'interleaved-outside-file', 'assign-after-leaving', 'created-outside-assigned-inside']
 META = {
     'level': 'exploration',
     'rule': ('one evaluation = one (specification, context pattern) executed inside the high-compatibility context and outside it: '
@@ -324,6 +324,56 @@ def run_case(case):
         with high_compatibility_mode():
             inside = build_and_write(sp)
         expect_flag(before, 'after with')
+    elif pattern in ('assign-after-leaving', 'created-outside-assigned-inside'):
+        # the mode that counts is the one in force when a value is assigned, not the one in force when the object was made
+        base = compliant_spec(r)
+        eq_i = next(i for i, o in enumerate(base['ops']) if o['op'] == 'equipment')
+        ch_i = next(i for i, o in enumerate(base['ops']) if o['op'] == 'channel')
+        fr_i = next(i for i, o in enumerate(base['ops']) if o['op'] == 'frame')
+        soft = [
+            {'op': 'assign', 'target': ch_i, 'target_op': 'channel', 'kw': 'units', 'part': 'value', 'value': 'furlong'},
+            {'op': 'assign', 'target': fr_i, 'target_op': 'frame', 'kw': 'index_type', 'part': 'value', 'value': 'MY-INDEX'},
+            {'op': 'assign', 'target': eq_i, 'target_op': 'equipment', 'kw': 'eq_type', 'part': 'value', 'value': 'Gizmo'},
+            {'op': 'assign', 'target': eq_i, 'target_op': 'equipment', 'kw': 'location', 'part': 'value', 'value': 'Moon'},
+            {'op': 'assign', 'target': eq_i, 'target_op': 'equipment', 'kw': 'height', 'part': 'units', 'value': 'My Unit'},
+        ]
+        op = r.choice(soft)
+        import logging as _lg
+        if pattern == 'assign-after-leaving':
+            with high_compatibility_mode():
+                b = S.build(base)
+            expect_flag(before, 'after with')
+            with harness.capture_logs() as logs:
+                try:
+                    S.run_op(b, len(base['ops']), op, 'inline')
+                    res = ('ok',)
+                except Exception as e:  # noqa
+                    res = ('exc', type(e).__name__, str(e)[:120])
+            if res[0] != 'ok':
+                vio.append({'prop': PROP, 'kind': 'mode-leaked', 'mech': 'leak:assign-after-leaving',
+                            'detail': f"object built inside the context; after leaving it, {op['kw']}.{op['part']} = {op['value']!r} raised {res[1:]}"})
+            elif not [m for lv, nm, m in logs if lv == 'WARNING']:
+                vio.append({'prop': PROP, 'kind': 'accepted-without-warning', 'mech': 'no-warning:assign-after-leaving',
+                            'detail': f"{op['kw']}.{op['part']} = {op['value']!r} accepted outside the context without a WARNING"})
+            else:
+                bump('outside-warned')
+        else:
+            b = S.build(base)
+            with high_compatibility_mode():
+                try:
+                    S.run_op(b, len(base['ops']), op, 'inline')
+                    res = ('ok',)
+                except Exception as e:  # noqa
+                    res = ('exc', type(e).__name__, str(e)[:120])
+                w = S.do_write(base, b, harness.fresh_path(), harness.scratch_dir()) if res[0] == 'ok' else None
+            expect_flag(before, 'after with')
+            if res[0] == 'ok' and w is not None and w[0] == 'ok':
+                vio.append({'prop': PROP, 'kind': 'breach-not-raised', 'mech': 'not-raised:assigned-inside-to-outside-object',
+                            'detail': f"object built outside the context; inside it, {op['kw']}.{op['part']} = {op['value']!r} was accepted "
+                                      f"and the file written"})
+            else:
+                bump('inside-raised')
+        aspects = []
     # ---- outside
     outside = build_and_write(sp)
     expect_flag(before, 'after building outside')
